@@ -52,6 +52,13 @@ func producerLemma(idx int, p string, eventsMayFail bool) {
 // producerLemmaAfter: before >= 0 first lets a different keeper instance successfully execute
 // transaction `before` on an arbitrary other state in the same process.
 func producerLemmaAfter(idx int, p string, eventsMayFail bool, before int) {
+	producerLemmaFull(idx, p, eventsMayFail, before, nil)
+}
+
+// producerLemmaFull: pre, if given, runs on the prepared state before the transaction under test (C18
+// uses it to let the SAME keeper instance execute a privileged transaction on a CacheContext branch
+// that is then thrown away: the specification is judged on the state that is actually stored).
+func producerLemmaFull(idx int, p string, eventsMayFail bool, before int, pre func(h *H)) {
 	if before >= 0 {
 		a := c18exec(before, "other_", "other_")
 		verifrt.Assume(a.ok)
@@ -63,6 +70,9 @@ func producerLemmaAfter(idx int, p string, eventsMayFail bool, before int) {
 	if idx == hDepositForBurn || idx == hDepositForBurnWithCaller {
 		// limits are stored lower-cased by the only transaction that writes them
 		verifrt.Assume(verifrt.LowerEq(h.LimitDenom, h.LimitDenom))
+	}
+	if pre != nil {
+		pre(h)
 	}
 	h.Env.EventsMayFail(eventsMayFail)
 	h.Env.FTF.MayPanic, h.Env.Bank.MayPanic = p == "C14", p == "C14" // failing by error or by panic
